@@ -269,6 +269,13 @@ example : lexStep 1 0 0 "0xdead_BEEF ".toList =
 example : WithSep "1000".toList "1_0__00".toList := by
   repeat (first | exact .nil | apply WithSep.digit | apply WithSep.sep)
 
+/-- **formatting never changes the tokens** (also the last clause of C01): sources that spell the same tokens, whatever their
+    indentation, blanks, comments, line breaks and line distribution, lex to the same token sequence -/
+theorem layout_does_not_matter (ls ls' : List LineSpec) (hne : ls ≠ []) (hne' : ls' ≠ []) (h : ∀ l ∈ ls, l.OK) (h' : ∀ l ∈ ls', l.OK)
+    (hsame : (ls.map (fun l => l.items.map (·.tok))).flatten = (ls'.map (fun l => l.items.map (·.tok))).flatten) :
+    (lex (sourceOf ls)).map (·.tok) = (lex (sourceOf ls')).map (·.tok) :=
+  layout_irrelevant ls ls' hne hne' h h' hsame
+
 /-- a concrete two-line source meeting the hypotheses of `lex_source_of_tokens`: `\tvar x_1 = 0x1F_u8 + 1_000 ; // c\r\n"a b" 'c' print! 0\n` -/
 def sampleLines : List LineSpec := [
   { indent := ['\t'], crlf := true, trailer := "// c".toList, items := [
